@@ -227,10 +227,12 @@ class EulerRotation(InvertibleParametricTransform, LinearTransform):
             raise TypeError("EulerRotation.matrix() 'arg' must be tensor")
         if arg.ndim != 3:
             raise ValueError("EulerRotation.matrix() 'arg' must be 3-dimensional tensor")
-        shape = (arg.shape[0], 3, 3)
+        shape = (arg.shape[0], self.ndim, self.ndim)
         if arg.shape != shape:
             raise ValueError(f"Rotation matrix must have shape {shape!r}")
         angles = U.euler_rotation_angles(arg, order=self.order)
+        if angles.ndim == 1:
+            angles = angles.unsqueeze(1)  # single angle of 2D rotation
         return self.angles_(angles)
 
     def tensor(self: EulerRotation) -> Tensor:
